@@ -52,9 +52,29 @@ def to_impl(entries, P):
                         'fslice': slice(0.5, None, None)}[w])
         else:
             raise ValueError(k)
+    for j, e2 in enumerate(entries):        # an index object may be read-only: reading through it must still work
+        if e2.get('ro') and hasattr(out[j], 'as_readonly'):
+            out[j] = out[j].as_readonly()
     if len(out) == 1 and not e.get('tuple1'):
         return out[0]
     return tuple(out)
+
+
+def index_snapshot(idx):
+    """content of the index objects of an index (values, expanded mask): reading or assigning through an index
+    object must not alter it, or its next use selects other elements (seeded change C09-C)"""
+    items = idx if isinstance(idx, tuple) else (idx,)
+    out = []
+    for it in items:
+        if hasattr(it, '_values_') and hasattr(it, '_mask_'):
+            v = np.asarray(it._values_)
+            m = np.broadcast_to(np.asarray(it._mask_), it.shape)
+            out.append((type(it).__name__, v.shape, v.tobytes(), m.tobytes()))
+        elif isinstance(it, np.ndarray):
+            out.append(('ndarray', it.shape, it.tobytes()))
+        else:
+            out.append(None)
+    return out
 
 
 ARR_SHAPES = [(2,), (1,), (3,), (1, 2), (2, 1), (2, 2), (0,)]
@@ -93,7 +113,8 @@ def gen_entry(rng, kind, axis_len, shape_rest):
             m = [rng.random() < 0.4 for _ in range(n)]
         elif r < 0.42:
             m = [True] * n
-        return {'k': 'iarr', 'shape': shp, 'v': vals, 'm': m, 'obj': rng.random() < 0.5, 'mscalar': rng.random() < 0.5}
+        return {'k': 'iarr', 'shape': shp, 'v': vals, 'm': m, 'obj': rng.random() < 0.5, 'mscalar': rng.random() < 0.5,
+                'ro': rng.random() < 0.2}
     if kind == 'barr':
         nd = 1 if (len(shape_rest) < 2 or rng.random() < 0.7) else 2
         shp = list(shape_rest[:nd])
@@ -128,7 +149,7 @@ def gen_entry(rng, kind, axis_len, shape_rest):
             m = [rng.random() < 0.4 for _ in range(cnt)]
         elif r < 0.38:
             m = [True] * cnt
-        return {'k': 'vec', 'n': nn, 'shape': shp, 'v': vals, 'm': m, 'mscalar': rng.random() < 0.5}
+        return {'k': 'vec', 'n': nn, 'shape': shp, 'v': vals, 'm': m, 'mscalar': rng.random() < 0.5, 'ro': rng.random() < 0.2}
     raise ValueError(kind)
 
 
@@ -182,6 +203,84 @@ def gen_index(rng, shape, max_extra=2, kinds=None):
             ax += e['n']
         elif k != 'none':
             ax += 1
+    return ents
+
+
+# index shapes in which the placement rules for array entries matter (several arrays, adjacent or separated by
+# slices / None / Ellipsis / integers, in front, in the middle and at the end); 'A' = integer array entry,
+# 'B' = boolean array entry (one axis), 'V' = Pair entry, 'i' = integer, ':' = slice, 'n' = None, 'e' = Ellipsis
+FOCUS_TEMPLATES = ['A:A', 'AnA', 'AeA', 'i:A', 'A:i', ':AA', ':A', 'nA', '::A', 'AA:', 'B:A', 'A:B', ':B', ':V', 'V:A',
+                   'iA:', ':iA', 'Ai', 'iA', 'eA', 'eAA', 'A::A', 'nA:A', 'A:A:', ':A:A', 'AiA', 'A:iA', 'i:i', 'Ani',
+                   'AAA', 'A:AA', 'AA:A', 'eA:', ':Ae', 'BA', 'AB', 'nAA', 'AnnA', 'A:n', 'iAi', 'An', 'Ae']
+_CONSUMES = {'A': 1, 'B': 1, 'V': 2, 'i': 1, ':': 1, 'n': 0, 'e': 0}
+
+
+def gen_focus_index(rng, shape):
+    """A multi-entry index built from a template: the array entries have mutually broadcastable shapes (one common
+    shape or length one), and with high probability at least one of them carries a masked or out-of-range entry.
+    Mostly valid; falls back to gen_index when no template fits the rank."""
+    rank = len(shape)
+    fits = [t for t in FOCUS_TEMPLATES if sum(_CONSUMES[c] for c in t) <= rank]
+    if not fits:
+        return gen_index(rng, shape)
+    t = rng.choice(fits)
+    common = list(rng.choice([(2,), (2,), (3,), (1,), (2, 2), (1, 2), (2, 1)]))
+    force = rng.random() < 0.75          # some array entry masked / out of range
+    ents = []
+    ax = 0
+    arrays = []
+    for c in t:
+        L = shape[ax] if ax < rank else 1
+        rest = list(shape[ax:]) or [1]
+        if c == 'A':
+            e = gen_entry(rng, 'iarr', L, rest)
+            shp = common if rng.random() < 0.7 else ([1] if rng.random() < 0.5 else common[-1:])
+            n = int(np.prod(shp))
+            vals = [(rng.randrange(-L, L) if (L > 0 and rng.random() < 0.9) else rng.choice([L, -L - 1])) for _ in range(n)]
+            e.update({'shape': list(shp), 'v': vals, 'm': None})
+            arrays.append(e)
+        elif c == 'B':
+            e = gen_entry(rng, 'barr', L, rest[:1])
+            arrays.append(e)
+        elif c == 'V':
+            e = gen_entry(rng, 'vec', L, rest)
+            if e['k'] == 'vec':
+                e['n'] = 2
+                shp = common if rng.random() < 0.6 else []
+                cnt = int(np.prod(shp)) if shp else 1
+                e['shape'] = list(shp)
+                e['v'] = [rng.randrange(-max(rest[j], 1), max(rest[j], 1)) if rest[j] > 0 else 0
+                          for _ in range(cnt) for j in range(2)]
+                e['m'] = None
+                arrays.append(e)
+        elif c == 'i':
+            e = gen_entry(rng, 'int', L, rest)
+        elif c == ':':
+            e = gen_entry(rng, 'slice', L, rest)
+        elif c == 'n':
+            e = {'k': 'none'}
+        else:
+            e = {'k': 'ell'}
+        ents.append(e)
+        ax += _CONSUMES[c]
+    if force and arrays:
+        e = rng.choice(arrays)
+        n = int(np.prod(e['shape'])) if e['shape'] else 1
+        if n:
+            r = rng.random()
+            if r < 0.6:
+                m = [rng.random() < 0.4 for _ in range(n)]
+                m[rng.randrange(n)] = True
+                e['m'] = m
+            elif r < 0.75:
+                e['m'] = [True] * n
+            elif e['k'] == 'iarr':
+                e['v'][rng.randrange(n)] = rng.choice([7, -8])       # out of range for every axis of the pool
+            else:
+                e['m'] = [j == 0 for j in range(n)]
+            e['mscalar'] = rng.random() < 0.5
+            if e['k'] in ('iarr', 'barr') and e['m'] is not None:
+                e['obj'] = True
     return ents
 
 
@@ -370,6 +469,7 @@ def build_object(d, P):
     dt = int if (d['int'] and d['cls'] in ('Scalar', 'Pair', 'Vector')) else float
     vals = (d['base'] + np.arange(n * isz)).astype(dt).reshape(shape + item)
     obj = cls(vals if (shape + item) else vals.item(), _mask_obj(d['mrep'], d['mask'], shape))
+    dcls = getattr(P, d.get('dcls') or d['cls'])       # class of the derivative objects (may differ from the parent's)
     for k, key in enumerate(sorted(d['derivs'])):
         dd = d['derivs'][key]
         denom = tuple(dd['denom'])
@@ -379,10 +479,10 @@ def build_object(d, P):
         if dd.get('bcast') and shape and n:
             # a derivative given without leading axes: insert_deriv broadcasts it (read-only) to the object's shape
             one = dv[(0,) * len(shape)]
-            dobj = cls(one if one.shape else one.item(), False, drank=len(denom))
+            dobj = dcls(one if one.shape else one.item(), False, drank=len(denom))
         else:
-            dobj = cls(dv if dv.shape else dv.item(), _mask_obj(dd['mrep'], dd['mask'], shape),
-                       drank=len(denom))
+            dobj = dcls(dv if dv.shape else dv.item(), _mask_obj(dd['mrep'], dd['mask'], shape),
+                        drank=len(denom))
         obj.insert_deriv(key, dobj)
     return obj
 
